@@ -156,6 +156,8 @@ def main(args):
         stats["codes"][rc] = stats["codes"].get(rc, 0) + 1
         if not accepted:
             stats["rejected"] += 1
+            if len(stats["samples"]) < 6 and (stats["rejected"] % 97 == 1):
+                stats["samples"].append({"point": where, "load_rc": rc, "outcome": "rejected, no rules returned"})
             if loads[0].get("nonnull"):
                 chk.violation("error-but-rules-returned", w)
             stats["nontrivial"].add(c.cid)
